@@ -205,12 +205,22 @@ def recvSteps (s : State) (ch : ChanSt) : Steps :=
 
 def State.validObj (s : State) (o : Nat) : Bool := o < s.objs.length && (s.obj o).ready
 
+/-- the task is a pending `Sub` that will create channel `c` -/
+def subName (c : Chan) : Task → Bool
+  | .subStart _ c' _ => c' == c
+  | .subWait _ c' _ => c' == c
+  | _ => false
+
+/-- the channel name `c` is in use: the channel exists, or a pending `Sub` is going to create it (in the Go code `Sub`
+makes a fresh channel and the harness never reuses a name, so the environment cannot issue such a name) -/
+def nameTaken (s : State) (c : Chan) : Bool := hasChan s.chans c || s.tasks.any (subName c)
+
 def envStep (cfg : Cfg) (s : State) : Event → Option State
   | .sub c cap =>
-    if hasChan s.chans c then none
+    if nameTaken s c then none
     else some (s.spawn [.subStart 0 c (if cap < 0 then cfg.defBuf else cap.toNat)])
   | .mkchan c =>
-    if hasChan s.chans c then none else some { s with chans := s.chans ++ [({ id := c, cap := 0 } : ChanSt)] }
+    if nameTaken s c then none else some { s with chans := s.chans ++ [({ id := c, cap := 0 } : ChanSt)] }
   | .withonly w via c =>
     if cfg.allowClone && w == s.objs.length && s.validObj via then
       some ({ s with objs := s.objs ++ [({ only := some c, ready := false } : ObjSt)] }.spawn [.woStart w via c])
